@@ -6,7 +6,7 @@ TECH_PB = TECH_P + "; bounded contract check (small-scope enumeration against in
 
 META = {
     "C11": dict(
-        built=True, level="proof", min_obligations=90, design="§6 C11",
+        built=True, bounded=True, level="proof", min_obligations=90, design="§6 C11",
         claim=("Every classifier that decides in which collection of which segment an L/C/E/G line is filed "
                "(from_end, to_end, _substring_type, _alignment_type_for_substring_types, E and G _refkey_for_s, _segment_role, _is_sid1_from, "
                "the three _initialize_references, the derived neighbourhood queries) satisfies a contract whose postcondition is the "
